@@ -75,6 +75,11 @@ func (dec *Decoder) Decode(v any) error {
 	if dec.err != nil {
 		return dec.err
 	}
+	if k, n := dec.dec.StackIndex(dec.dec.StackDepth()); k == '{' && n%2 == 0 {
+		// Like the original decoder, refuse to decode a value
+		// where an object name is expected (after Token calls).
+		return &SyntaxError{msg: "not at beginning of value", Offset: dec.InputOffset()}
+	}
 	b, err := dec.dec.ReadValue()
 	if err != nil {
 		dec.err = transformSyntacticError(err)
